@@ -437,6 +437,14 @@ func streamChan(o *Out, r *rand.Rand, n int, thorough bool) {
 		{"struct-channels-two-workers", "make(type Worker, make(struct { In chan int64 }))\nw1 = make(Worker)\nw2 = make(Worker)\nout = make(chan int64, 16)\nfunc run(w, k) {\nfor v in w.In {\nout <- v * k\n}\nout <- 0 - k\n}\ngo run(w1, 1)\ngo run(w2, 100)\nw1.In <- 1\nw1.In <- 2\nclose(w1.In)\nw2.In <- 4\nclose(w2.In)\ns = 0\nfor i = 0; i < 5; i++ {\ns += <-out\n}\ns", "302"},
 		{"struct-channels-nested", "make(type Box, make(struct { In chan int64 }))\nmake(type Pair, make(struct { A Box, B Box }))\np = make(Pair)\nq = make(Pair)\nclose(p.A.In)\nclose(p.B.In)\nclose(q.A.In)\nclose(q.B.In)\n\"all four closed once\"", "all four closed once"},
 		{"struct-channels-in-a-slice", "ws = make([]struct { In chan int64 }, 2)\nws[0] = make(struct { In chan int64 })\nws[1] = make(struct { In chan int64 })\nclose(ws[0].In)\ngo func() { ws[1].In <- 9 }()\n<-ws[1].In", "9"},
+		// closing is about the channel, not about where it lives: thousands of channels made and closed one after another
+		{"close-fresh-channels", "n = 0\nfor i = 0; i < 60000; i++ {\nc = make(chan int64, 1)\nclose(c)\nn++\n}\nn", "60000"},
+		{"reply-channel-per-request", "reqs = make(chan interface, 4)\ngo func() {\nfor r in reqs {\nc = r[0]\nc <- 1\nclose(c)\n}\n}()\nt = 0\nfor i = 0; i < 20000; i++ {\nreply = make(chan int64, 1)\nreqs <- [reply]\nfor v in reply {\nt += v\n}\n}\nclose(reqs)\nt", "20000"},
+		// a stage started from a function literal that fails after registering its clean-up: the deferred close / done signal still runs
+		{"go-literal-defers-run-on-failure", "out = make(chan int64, 4)\ngo func() {\ndefer func() { close(out) }()\nout <- 1\nout <- 2\nthrow \"stage failed\"\n}()\nr = []\nfor v in out {\nr += v\n}\nr", "[1,2]"},
+		{"go-literal-defers-run-on-runtime-error", "out = make(chan int64, 4)\ndone = make(chan bool, 1)\ngo func(k) {\ndefer func() { done <- true }()\ndefer func() { close(out) }()\nout <- k\nx = [1][5]\nout <- 99\n}(7)\nr = []\nfor v in out {\nr += v\n}\n[r, <-done]", "[[7],true]"},
+		{"go-literal-defers-run-on-send-on-closed", "c = make(chan int64, 1)\nclose(c)\ndone = make(chan int64, 1)\ngo func() {\ndefer func() { done <- 5 }()\nc <- 1\n}()\n<-done", "5"},
+		{"go-named-defers-run-on-failure", "out = make(chan int64, 4)\nfunc stage(k) {\ndefer func() { close(out) }()\nout <- k\nthrow \"failed\"\n}\ngo stage(3)\nr = []\nfor v in out {\nr += v\n}\nr", "[3]"},
 		{"unbuffered-handoff", "c = make(chan int64)\nd = make(chan int64)\ngo func() {\nfor x in c {\nd <- x + 1\n}\nclose(d)\n}()\ngo func() {\nc <- 1\nc <- 2\nclose(c)\n}()\nr = []\nfor y in d {\nr += y\n}\nr", "[2,3]"},
 	}
 	for _, t := range templates {
